@@ -342,6 +342,7 @@ pub fn suite(check: &str, thorough: bool) -> Suite {
         "C14" => c14(thorough),
         "C15" => c15(thorough),
         "C16" => c16(thorough),
+        "C17" => c17(thorough),
         "C19" => c19(thorough),
         _ => panic!("unknown check {check}"),
     }
@@ -372,6 +373,11 @@ fn pb3(thorough: bool) -> Option<u8> {
 }
 const UNB: Option<u8> = None;
 
+/// all schedules, without and with a spurious return of the first park()
+fn unb_sp() -> Vec<Env> {
+    vec![env(2, 1, None, UNB), env(2, 1, Some(0), UNB)]
+}
+
 fn c01(thorough: bool) -> Suite {
     let mut ps = Vec::new();
     // 2 threads, full alphabet, (1,1), every flavour assignment, all schedules
@@ -384,7 +390,7 @@ fn c01(thorough: bool) -> Suite {
         if thorough { &CAPS4 } else { &CAPS3 },
         if thorough { &[Class::DL, Class::DP, Class::B1, Class::DZ] } else { &[Class::DL] },
         &all_flavours(2),
-        &[env(2, 1, None, UNB)],
+        &unb_sp(),
     ));
     // 2 threads, core alphabet, up to (2,2), preemption-bounded
     ps.extend(core2(
@@ -581,7 +587,7 @@ fn c03(thorough: bool) -> Suite {
         &CAPS4,
         &[Class::P],
         &all_flavours(2),
-        &[env(2, 1, None, UNB)],
+        &unb_sp(),
     ));
     ps.extend(core2(
         "c03-obs22",
@@ -631,7 +637,7 @@ fn c05(thorough: bool) -> Suite {
         &CAPS3,
         classes,
         &sync_only(2),
-        &[env(2, 1, None, UNB)],
+        &unb_sp(),
     ));
     if thorough {
         ps.extend(core2(
@@ -690,7 +696,7 @@ fn c04(thorough: bool) -> Suite {
         &classes,
         &all_flavours(2),
         &[(S, Conv::Clone)],
-        &[env(2, 1, None, UNB)],
+        &unb_sp(),
         true,
     ));
     // two values: refill of the buffer from a blocked sender
@@ -884,6 +890,19 @@ fn c08(thorough: bool) -> Suite {
         true,
     ));
     ps.extend(product(
+        "c08-11-sp",
+        &[
+            seqs(&[Op::Send, Op::SendT(2), Op::TrySend, Op::SendRepoll], 1),
+            seqs(&[Op::Recv, Op::RecvT(2), Op::TryRecv, Op::Len(Side::R)], 1),
+        ],
+        &CAPS4,
+        &[Class::P],
+        &all_flavours(2),
+        &[(S, Conv::Clone)],
+        &[env(2, 1, Some(0), UNB), env(1, 1, Some(0), UNB)],
+        true,
+    ));
+    ps.extend(product(
         "c08-p3c1",
         &[
             seqs(&[Op::Send, Op::TrySend], 3),
@@ -954,7 +973,7 @@ fn c09(thorough: bool) -> Suite {
         &[Class::DL],
         &all_flavours(2),
         &ctor_via,
-        &[env(2, 1, None, if thorough { Some(4) } else { UNB })],
+        &[env(2, 1, None, if thorough { Some(4) } else { UNB }), env(2, 1, Some(0), if thorough { Some(4) } else { UNB })],
         true,
     ));
     ps.extend(product(
@@ -1563,6 +1582,63 @@ fn c19(thorough: bool) -> Suite {
     Suite {
         cfg: cfg(&[Oracle::Drain, Oracle::Outcome, Oracle::DropOnce], &k, false, true),
         rule: "channel states built by a setup prefix (k buffered values + j pending async senders in known order, one cancelled; closed) x vector states {empty, spare capacity, pre-filled with sentinels and no spare capacity} x capacities {0,1,2,unbounded}; drain racing with blocked / timed / try senders; 3 threads; oracle: returned count = number appended, prefix untouched, order = buffer then senders oldest first, every drained sender reports success, closed => error and nothing appended, the call never waits for a peer".into(),
+        programs: ps,
+    }
+}
+
+fn c17(thorough: bool) -> Suite {
+    let mut ps = Vec::new();
+    let roles: Vec<Vec<Op>> = vec![
+        vec![Op::LockL],
+        vec![Op::LockT],
+        vec![Op::LockL, Op::LockL],
+        vec![Op::LockT, Op::LockL],
+        vec![Op::LockL, Op::LockT],
+        vec![Op::LockT, Op::LockT],
+    ];
+    let single: Vec<Vec<Op>> = vec![vec![Op::LockL], vec![Op::LockT]];
+    for par in [2u8, 1] {
+        // 2 threads: all role pairs, all schedules
+        ps.extend(product("c17-2", &[roles.clone(), roles.clone()], &[Cap::B(0)], &[Class::P], &sync_only(2), &[(S, Conv::Clone)], &[env(par, 1, None, UNB)], false));
+        // 3 threads
+        ps.extend(product(
+            "c17-3",
+            &[roles.clone(), single.clone(), single.clone()],
+            &[Cap::B(0)],
+            &[Class::P],
+            &sync_only(3),
+            &[(S, Conv::Clone)],
+            &[env(par, 1, None, pb3(thorough))],
+            false,
+        ));
+        // 4 threads
+        ps.extend(product(
+            "c17-4",
+            &[single.clone(), single.clone(), single.clone(), single.clone()],
+            &[Cap::B(0)],
+            &[Class::P],
+            &sync_only(4),
+            &[(S, Conv::Clone)],
+            &[env(par, 1, None, Some(2))],
+            false,
+        ));
+        if thorough {
+            ps.extend(product(
+                "c17-3-22",
+                &[roles.clone(), roles.clone(), single.clone()],
+                &[Cap::B(0)],
+                &[Class::P],
+                &sync_only(3),
+                &[(S, Conv::Clone)],
+                &[env(par, 1, None, Some(3))],
+                false,
+            ));
+        }
+    }
+    let k = vec![Kind::DataRace, Kind::Overlap, Kind::Deadlock, Kind::Livelock, Kind::NoWait, Kind::Panic];
+    Suite {
+        cfg: cfg(&[], &k, false, true),
+        rule: "kanal's own lock (lock_api::Mutex<RawMutexLock, loom::cell::UnsafeCell<u64>>) driven directly: threads with roles L (lock; critical section; unlock) and T (try_lock; critical section if acquired), once or twice; 2 threads: every role pair, every schedule; 3 and 4 threads preemption-bounded; reported parallelism 1 and 2 (both branches of spin_cond); oracle: overlap monitor with a scheduling point inside the section, loom causality check on the protected cell (exclusion and release->acquire visibility), final counter = number of sections, try_lock inside a no-wait region (no yield, bounded steps), every execution terminates".into(),
         programs: ps,
     }
 }
